@@ -1120,7 +1120,7 @@ func (in *Interp) checkView(o *ByteObj) {
 		in.p.note("read of a bufio view after a later read (contents arbitrary per the bufio contract)")
 		// the path is not expanded below an over-approximated read: the contract violation is
 		// recorded as a candidate (confirmed only if the native run violates an assertion)
-		in.p.violate("over-approximation: a slice returned by bufio.Reader.ReadLine is used after a later read on the same reader (its contents are arbitrary by the bufio contract)", nil)
+		in.p.violate("over-approximation: a view into a bufio.Reader window (ReadLine / ReadSlice / Peek) is used after a later read on the same reader (its contents are arbitrary by the bufio contract)", nil)
 		in.p.abort("end-violated", "stale bufio view")
 	}
 }
